@@ -89,7 +89,10 @@ class Grammar:
             fixed = self.policy.get('bools', {}).get(role)
             if fixed is not None:
                 return fixed
-            return ctx.var('b!' + uid, z3.BoolSort())
+            bv = ctx.var('b!' + uid, z3.BoolSort())
+            if bv.get_id() not in ctx.dom:
+                ctx.set_domain(bv, [True, False])
+            return bv
         if head in SCALAR_INT:
             return 0
         if head == 'f64':
@@ -99,8 +102,9 @@ class Grammar:
             if uni is not None and len(uni) == 1:
                 return StrV(uni[0])
             s = ctx.var('s!' + uid, z3.StringSort())
-            if uni is not None:
-                ctx.add(z3.Or([s == z3.StringVal(u) for u in uni]))
+            if uni is not None and s.get_id() not in ctx.dom:
+                ctx.set_domain(s, uni)
+                ctx.add(z3.Or([s == z3.StringVal(u) for u in uni]), dom=False)
             return StrV(s)
         if head == 'Span':
             return self.make_span(uid, role)
@@ -118,7 +122,9 @@ class Grammar:
                 if len(idxs) == 1:
                     return Adt(head, idxs[0], [])
                 v = ctx.var('e!' + uid, z3.IntSort())
-                ctx.add(z3.Or([v == i for i in idxs]))
+                if v.get_id() not in ctx.dom:
+                    ctx.set_domain(v, idxs)
+                    ctx.add(z3.Or([v == i for i in idxs]), dom=False)
                 return Adt(head, v, [])
             return Adt(head, None, None, LazyInfo(uid, ty, depth, role))
         # struct: eager, children lazy
